@@ -71,7 +71,7 @@ def sig(r):
 def run(tier, seed):
     q = tier == "quick"
     return _func.run(
-        "C01", tier, seed, emitters=[("MC_Operators", MC % ((3, 3) if q else (4, 5)), "MC_Operators"),
+        "C01", tier, seed, emitters=[("MC_Operators", MC % ((4, 2) if q else (4, 5)), "MC_Operators"),
                                       ("MC_FwdRev", "CONSTANT Sel = \"operators\"\nSPECIFICATION Spec\nINVARIANT Emit\n", "MC_FwdRev_operators")],
         extras=extras(tier), sig=sig, prepare=prepare, thorough_reps=1,
         rule="TLC enumerates dim 1..4 x time? x {laplacian, divergence, vector laplacian, advection (2-D)} x every monomial of total "
